@@ -12,6 +12,7 @@ header / parameter values per picture, same coefficient arrays.
 """
 import io
 import random
+import zlib
 
 from .. import common, tlc, tlaval, trace
 
@@ -476,11 +477,27 @@ def place_slice(state, arrays, s, hq):
                     arrays["C2"][lv][o][y][x] = inverse_quant(next(it), qi)
 
 
-def run_deserialiser(data):
-    from vc2_conformance.bitstream import BitstreamReader, Deserialiser, parse_stream
+def run_deserialiser(data, as_viewer=False):
+    """as_viewer: the deserialiser as the bitstream viewer drives it -- a MonitoredDeserialiser whose monitor,
+    after every value, seeks back to where the value started and re-reads its raw bits (what the viewer prints)"""
+    from vc2_conformance.bitstream import BitstreamReader, Deserialiser, MonitoredDeserialiser, parse_stream, to_bit_offset
     from vc2_conformance.pseudocode.state import State
 
-    with Deserialiser(BitstreamReader(io.BytesIO(data))) as des:
+    reader = BitstreamReader(io.BytesIO(data))
+    if not as_viewer:
+        with Deserialiser(reader) as des:
+            parse_stream(des, State())
+        return reconstruct(des.context)
+    last = [reader.tell()]
+
+    def monitor(serdes, target, value):
+        this = reader.tell()
+        n = to_bit_offset(*this) - to_bit_offset(*last[0])
+        reader.seek(*last[0])
+        reader.read_bitarray(n)
+        last[0] = this
+
+    with MonitoredDeserialiser(monitor, reader) as des:
         parse_stream(des, State())
     return reconstruct(des.context)
 
@@ -611,7 +628,9 @@ def observe(data):
         old = signal.signal(signal.SIGVTALRM, _on_alarm)
         signal.setitimer(signal.ITIMER_VIRTUAL, DESER_BUDGET)
         try:
-            ev["dunits"], ev["dpics"] = run_deserialiser(data)
+            # every other accepted stream (by content hash) is deserialised the way the viewer does it
+            ev["as_viewer"] = zlib.crc32(data) % 2 == 1
+            ev["dunits"], ev["dpics"] = run_deserialiser(data, ev["as_viewer"])
         except Deadline:
             ev["des_ok"] = False
             ev["dexc"] = "Deadline(%d CPU-s)" % DESER_BUDGET
@@ -870,6 +889,7 @@ def run(ctx):
             "slice_styles": styles,
             "profiles": {"ld": sum(1 for e in accepted if e["info"]["profile"] == 0), "hq": sum(1 for e in accepted if e["info"]["profile"] == 3)},
             "fragmented": sum(1 for e in accepted if e["info"]["frag"]),
+            "deserialised_the_way_the_viewer_does": sum(1 for e in accepted if e.get("as_viewer")),
             "sequences_with_differing_transform_parameters": mixed,
             "pictures_by_quant_matrix_source": dflt,
             "default_matrix_table": "DVT_DefaultQM generated from vc2_data_tables.QUANTISATION_MATRICES (third party), judged in DeserValidatorTrace!MatrixInForce",
